@@ -125,9 +125,15 @@ type Sim struct {
 	faultsOn         bool
 	inEmitHook       bool
 	KnownF5          bool
-	Excluded         map[string]int
-	started          bool
-	startBuf         []*delivery
+	// Template mode ("one victim, one wildcard"): a Byzantine dealer mistreats exactly one honest victim's share, every other
+	// fault point is honest except the one whose running number equals Wildcard, where the fault kind is drawn freely.
+	Template   bool
+	Victim     int
+	Wildcard   int
+	faultPoint int
+	Excluded   map[string]int
+	started    bool
+	startBuf   []*delivery
 }
 
 func (s *Sim) tracef(format string, a ...any) {
@@ -441,6 +447,29 @@ func scalar32(x *big.Int) []byte {
 	return b
 }
 
+// faultDraw draws a fault kind in [0, max] at a fault point.  In template mode every fault point is honest (0) except the wildcard.
+func (s *Sim) faultDraw(label string, max int) int {
+	if !s.Template {
+		return s.G.Int(label, 0, max)
+	}
+	s.faultPoint++
+	if s.faultPoint-1 == s.Wildcard {
+		return s.G.Int(label+"Wild", 0, max)
+	}
+	return 0
+}
+
+func (s *Sim) faultChance(label string, num, den int) bool {
+	if !s.Template {
+		return s.G.Chance(label, num, den)
+	}
+	s.faultPoint++
+	if s.faultPoint-1 == s.Wildcard {
+		return true
+	}
+	return false
+}
+
 // byzantine decides what happens to a message emitted by a Byzantine participant's instance.
 func (s *Sim) byzantine(d *delivery) {
 	g := s.G
@@ -452,7 +481,12 @@ func (s *Sim) byzantine(d *delivery) {
 	switch {
 	case !d.broadcast && d.data[0] == TagShare && di != nil:
 		di.Honest[d.to] = append([]byte{}, d.data[1:]...)
-		kind := g.Int("shareFault", 0, 11)
+		var kind int
+		if s.Template && d.to == s.Victim {
+			kind = []int{3, 3, 5, 6, 7, 8, 9, 10, 11}[g.Pick("victimShareFault", 9)] // withheld (twice as likely), malformed or inconsistent
+		} else {
+			kind = s.faultDraw("shareFault", 11)
+		}
 		name := ""
 		out := d.data
 		delay := 0
@@ -502,14 +536,14 @@ func (s *Sim) byzantine(d *delivery) {
 			s.class("share:" + name)
 		}
 		s.enqueue(&delivery{from: d.from, to: d.to, data: out}, delay)
-		if name != "omitted" && g.Chance("shareDup", 1, 10) {
+		if name != "omitted" && s.faultChance("shareDup", 1, 10) {
 			s.enqueue(&delivery{from: d.from, to: d.to, data: append([]byte{}, d.data...)}, 0)
 			s.class("share:duplicated")
 		}
 	case d.broadcast && d.data[0] == TagVector && di != nil:
 		s.vectorFault(d, di)
 	case d.broadcast && d.data[0] == TagComplaint:
-		switch g.Int("complaintFault", 0, 5) {
+		switch s.faultDraw("complaintFault", 5) {
 		case 0, 1, 2:
 			s.enqueue(d, 0)
 		case 3:
@@ -524,7 +558,7 @@ func (s *Sim) byzantine(d *delivery) {
 		}
 	case d.broadcast && d.data[0] == TagAnswer:
 		// a dealer may answer correctly in public and then privately send the complainer a different, well-formed share
-		if di != nil && len(d.data) == 34 && int(d.data[1]) < s.N && g.Chance("shareAfterAnswer", 2, 5) {
+		if di != nil && len(d.data) == 34 && int(d.data[1]) < s.N && s.faultChance("shareAfterAnswer", 2, 5) {
 			c := int(d.data[1])
 			x := new(big.Int).SetBytes(d.data[2:])
 			x.Add(x, big.NewInt(1)).Mod(x, scalarR)
@@ -538,7 +572,7 @@ func (s *Sim) byzantine(d *delivery) {
 			s.class("answer:followedByPrivateInconsistentShare")
 			defer s.enqueue(&delivery{from: d.from, to: c, data: append([]byte{TagShare}, late...)}, 0)
 		}
-		switch g.Int("answerFault", 0, 8) {
+		switch s.faultDraw("answerFault", 8) {
 		case 0, 1, 2:
 			s.enqueue(d, 0)
 		case 3:
@@ -579,7 +613,7 @@ func (s *Sim) byzantine(d *delivery) {
 
 func (s *Sim) vectorFault(d *delivery, di *DealerInfo) {
 	g := s.G
-	kind := g.Int("vectorFault", 0, 13)
+	kind := s.faultDraw("vectorFault", 13)
 	out := append([]byte{}, d.data...)
 	name := ""
 	delay := 0
@@ -658,7 +692,15 @@ func (s *Sim) inject() {
 		if !nd.Byz || !s.faultsOn {
 			continue
 		}
-		for k, cnt := 0, g.Int("injectCount", 0, 2); k < cnt; k++ {
+		cnt := 0
+		if s.Template {
+			if s.faultChance("inject", 1, 1) {
+				cnt = 1
+			}
+		} else {
+			cnt = g.Int("injectCount", 0, 2)
+		}
+		for k := 0; k < cnt; k++ {
 			b := nd.Idx
 			switch g.Int("injectKind", 0, 9) {
 			case 0: // complaint against any dealer
